@@ -11,6 +11,9 @@ E1_NOTE = ("trusted base: the mini-node of engine E1 (harness/raftsim/replica.go
            "simulated replica keeps exactly what SaveRaftState/SaveSnapshots received; schedules are sampled by a seeded "
            "PRNG (deterministic per seed), not enumerated")
 
+E2_NOTE = ("trusted base: engine E2 runs real NodeHosts in one process on lni/vfs strict in-memory file systems with an in-process transport written for the harness (never duplicates or fabricates); "
+           "goroutine schedules, fault scripts and crash instants are sampled by a seeded PRNG; a crash drops all unsynced data of the host after its traffic was cut (the property's crash model)")
+
 CLAIMS = {
  'C01': dict(engine='raftsim', category='exploration', design='DESIGN.md section 4 C01',
    technique='runtime monitoring: recorded client history (logical call/return stamps) decided by an exact n log n linearizability oracle for the unique-value append-only-list model, cross-checked with porcupine',
@@ -40,6 +43,48 @@ CLAIMS = {
    text=('E5: random config-change streams (valid, invalid, ordered/unordered) through the real rsm.StateMachine, every accept/reject and resulting membership compared with a reference written from the statement, also across snapshot cuts. '
          'E1: per config-change index all replicas must report the same outcome and membership hash; the raft core member sets equal the applied membership; C02/C03 monitors stay armed under concurrent changes and leader failure.'),
    note=E1_NOTE),
+
+ 'C04': dict(engine='clusterrun', category='fault_enumeration', design='DESIGN.md section 4 C04',
+   technique='runtime monitoring with fault injection: durable shadow of every successful SaveRaftState checked against every outgoing vote / vote request / replication ack / heartbeat response in the step worker (hook), power-loss crashes at step-worker points and arbitrary moments with recovery comparison, full power loss with final reads',
+   text=('M1: every RequestVote, granted RequestVoteResp, accepting ReplicateResp and HeartbeatResp is checked, in the goroutine that sends it, against the durable shadow (term, vote, entries) of its replica. '
+         'M2: hosts lose power (unsynced data dropped) just before / just after SaveRaftState or at arbitrary moments; the reopened log store must dominate the shadow frozen at the crash instant. '
+         'M3: after a power loss of all hosts every proposal reported Completed must be in the final lists. Pebble and Tan. Crash sites are enumerated by kind, crash instants within a site are sampled.'),
+   note=E2_NOTE),
+ 'C05': dict(engine='rsmcheck', category='exploration', design='DESIGN.md section 4 C05',
+   technique='runtime monitoring: differential check of the real rsm.StateMachine session handling against a reference session/LRU model over random register/propose/retry/acknowledge/unregister streams, with a snapshot twin at every index',
+   text=('10k streams per quick run (more clients than the LRU limit): for every entry the model predicts whether the user state machine is called, the result, rejected and ignored flags; '
+         'at every index a twin is recovered from a snapshot and must behave identically for the rest of the stream (session hash included).'),
+   note='single replica, single-threaded: leader changes and restarts appear as duplicate placements and snapshot cuts; end-to-end retries over real NodeHosts are not yet covered'),
+ 'C08': dict(engine='rsmcheck+clusterrun', category='exploration', design='DESIGN.md section 4 C08',
+   technique='runtime monitoring: twin replicas (full replay vs snapshot + suffix) over the real snapshotter and state machine adapters at every cut index; online assertion in the log store wrapper that compaction never passes a recoverable snapshot',
+   text=('E5: for random streams and every cut, regular / concurrent / on-disk state machines, with and without compression: user state, sessions, membership, index and term of the recovered twin equal the uninterrupted replica; file-transfer and streamed followers included. '
+         'E2/E1: every RemoveEntriesTo is checked against the recorded snapshot (index and file validity); lagging followers are repaired by snapshot in the chaos and contract workloads.'),
+   note=E2_NOTE),
+ 'C09': dict(engine='storecheck', category='exploration', design='DESIGN.md section 4 C09',
+   technique='runtime monitoring: model-based differential test of the real log stores (sharded Pebble plain + batched, Tan regular + multiplexed) against a reference logical log after every operation and reopen',
+   text=('Random and scripted operation sequences over several (shard, replica) pairs sharing a store: saves with overwrites of shorter newer-term suffixes, snapshot records, compaction, node removal, import, reopen; '
+         'after every operation ReadRaftState, IterateEntries (random ranges and size limits), GetSnapshot, ListNodeInfo, GetBootstrapInfo are compared with the model. Two known findings for multiplexed Tan are listed in KNOWN_FINDINGS.txt.'),
+   note='sequences are generated, not enumerated; preconditions of the ILogDB interface are respected by the generator'),
+ 'C10': dict(engine='storecheck', category='fault_enumeration', design='DESIGN.md section 4 C10',
+   technique='fault enumeration at run time: power loss at every mutating file-system operation of deterministic workloads (all unsynced data dropped) with recovery comparison, and an injected I/O error at file-system operations and at every KV-store call (child process per injection)',
+   text=('Every FS operation k of every workload is a crash point: the reopened store must hold every acknowledged save completely and the interrupted save all-or-nothing per replica. '
+         'Every KV call index and sampled FS operations get an injected error: the API call in flight must fail (error, panic or process exit), never return success having persisted nothing. All four store flavours.'),
+   note='Pebble background work makes operation numbering slightly schedule dependent (the site actually hit is recorded; exhaustive is not claimed); torn unsynced tails are run as a diagnostic only (beyond the property fault model)'),
+ 'C11': dict(engine='clusterrun', category='exploration', design='DESIGN.md section 4 C11',
+   technique='runtime monitoring: instrumented user state machines of all three kinds check the call contract online (interval monitor under its own mutex); the Go race detector is a second oracle through a deliberately unsynchronised field',
+   text=('Three shards (regular, concurrent, on-disk) under proposals, stale / linearizable / delayed local reads, periodic and requested snapshots, a lagging follower, StopShard / StopReplica / restart and NodeHost close under load: '
+         'Update indexes strictly increase per incarnation, no forbidden overlap among Update/Sync/PrepareSnapshot/RecoverFromSnapshot/Close (+ Lookup/SaveSnapshot for the plain SM), nothing after Close, on-disk SM never handed an index at or below Open.'),
+   note=E2_NOTE + '; race reports are attributed to C11 only if a frame of the instrumented state machine is on a stack'),
+ 'C12': dict(engine='clusterrun', category='exploration', design='DESIGN.md section 4 C12',
+   technique='runtime monitoring: a watcher per accepted request drains its result channel until quiescence; unique payload ids tie results to requests; apply stamps of the instrumented state machine give applied-before-completed; race reports with request.go frames are attributed',
+   text=('Every accepted Propose / ReadIndex / config change / RequestSnapshot / QueryRaftLog is followed to quiescence (after StopShard / NodeHost.Close returned): exactly one terminal result, at most one commit notification before it, '
+         'Completed carries the requester own id and follows the local apply, Dropped/Rejected proposals are never applied. Short timeouts, immediate Release and reuse, NotifyCommit on/off, leader isolation, stops and closes under load, delays at the hand-over windows.'),
+   note=E2_NOTE + '; promptness of expiry is recorded, not decided (no logical tick is observable at the API)'),
+ 'C16': dict(engine='rsmcheck', category='fault_enumeration', design='DESIGN.md section 4 C16',
+   technique='fault enumeration at run time: power loss at every file-system operation of the real snapshotter sequences (save+commit, receive+record+flag removal, shrink, compact, racing local save / incoming snapshot) followed by start-up cleanup and a directory / record / load oracle',
+   text=('For every operation k of every sequence: crash, ResetToSyncedState, reopen log store, processOrphans; then only complete snapshot directories remain, the recorded snapshot exists and validates, no temporary or flagged directory is left, the record never goes backwards, Load reproduces the saved state. '
+         'The real Pebble log store runs on the same crash file system so that record-versus-directory ordering is real.'),
+   note='white-box level (snapshotter + SSEnv + log store); restart of whole NodeHosts after such crashes is exercised by the E2 chaos workload (restart failures are reported there)'),
  'C13': dict(engine='codeccheck', category='exploration', design='DESIGN.md section 4 C13',
    technique='runtime monitoring of the real codecs on structure-aware generated values (boundary sets), canary-guarded MarshalTo buffers, and corrupted/truncated real TCP frames fed to the real reader',
    text=('About 1M generated values per quick run over every persisted/wire type: decode(encode(v)) == v up to listed normalisations, encoded length <= Size()/SizeUpperLimit(), MarshalTo never writes outside the advertised size (canaries), '
@@ -63,7 +108,7 @@ CLAIMS = {
 
 NOT_YET = {}
 # claimed later: engines still under construction
-HOLD = ['C07']
+HOLD = []
 for _p in HOLD:
     CLAIMS.pop(_p, None)
 
@@ -103,6 +148,9 @@ def main():
         'engines': [
             {'name': 'raftsim', 'path': 'harness/raftsim, harness/cmd/raftsim', 'serves_properties': ['C01', 'C02', 'C03', 'C06', 'C07', 'C17', 'C18'], 'kind_free_text': 'E1: deterministic single-goroutine simulation of a shard of real raft.Peer + LogReader + rsm.StateMachine replicas with global-view monitors'},
             {'name': 'codeccheck', 'path': 'harness/cmd/codeccheck', 'serves_properties': ['C13'], 'kind_free_text': 'E4: codec round-trip / size-bound / frame corruption monitor'},
+            {'name': 'clusterrun', 'path': 'harness/cluster, harness/cmd/clusterrun', 'serves_properties': ['C01', 'C02', 'C04', 'C08', 'C11', 'C12'], 'kind_free_text': 'E2: real NodeHosts in-process, fault injecting transport, strict in-memory FS with power-loss crashes, instrumented state machines, request watchers'},
+            {'name': 'rsmcheck', 'path': 'harness/cmd/rsmcheck', 'serves_properties': ['C05', 'C07', 'C08', 'C16'], 'kind_free_text': 'E5: real rsm.StateMachine / snapshotter driven with synthetic streams, reference models, twins, crash enumeration'},
+            {'name': 'storecheck', 'path': 'harness/cmd/storecheck', 'serves_properties': ['C09', 'C10'], 'kind_free_text': 'E3: real ILogDB implementations against a reference model, crash and error injection'},
             {'name': 'logview', 'path': 'harness/cmd/logview', 'serves_properties': ['C19'], 'kind_free_text': 'E6: entryLog + LogReader against a reference slice'},
         ],
         'checks': checks,
